@@ -50,6 +50,7 @@ func RunC05(c *Ctx) {
 		}
 	}
 	idx = e.explicitRanges(idx, true)
+	idx = e.lateClockPairs(idx, cases, c.N(17, 5), true)
 	// I/O errors: a failed operation must not publish a list naming missing tables
 	idx = e.staleCleanupFamilies(idx)
 	idx = e.faultFamilies(idx, true, "", 2)
@@ -149,6 +150,24 @@ func RunC08(c *Ctx) {
 		idx++
 	}
 	sampleEng(c, e)
+}
+
+// lateClockPairs re-runs every stride-th pair sweep of a check with the virtual clock set
+// decades after the files' time stamps (every lock, temporary file, table and list looks
+// very old to the code, as after a long pause): age must not change who owns what.
+func (e *engRunner) lateClockPairs(idx int, cases []pairCase, stride int, every bool) int {
+	e.clockAhead = lateClock
+	defer func() { e.clockAhead = 0 }()
+	for i, pc := range cases {
+		if i%stride != 0 {
+			continue
+		}
+		if e.c.Mine(idx) {
+			e.sweepPair("late-clock pair-sweep", idx, engCfg(pc.cfg), pc.rec, pc.a, pc.b, pc.c, pc.preOpen, every)
+		}
+		idx++
+	}
+	return idx
 }
 
 // lateClock: 2020-01-01 (virtual base) + 80 years
@@ -612,6 +631,7 @@ func RunC16(c *Ctx) {
 			idx++
 		}
 	}
+	idx = e.lateClockPairs(idx, cases, c.N(23, 7), false)
 	// crash part: another process died; Close and Clean of a live one
 	for ci, cr := range [][2]string{{"add", "clean,close"}, {"compactall", "clean,add,close"}, {"autocompact", "close"}, {"addmulti", "clean,clean,close"}, {"compactexpiry", "clean,close"}} {
 		for ri, rec := range []eng.Recipe{{}, {0, 0}, {200, 40, 0, 0}} {
